@@ -413,17 +413,20 @@ class Simulator(EventProducer, SimulatorInterface, Generic[TIME]):
         if self._simulator_time > self._replication.end_sim_time:
             raise DSOLError("cannot start: simulator_time > run length")
         try:
+            # running from here on: listeners cannot start, step or 
+            # initialize the simulator from inside the notifications
+            self._run_state = RunState.STARTED
             if self._replication_state == ReplicationState.INITIALIZED:
                 self.fire_timed(self._simulator_time,
                     ReplicationInterface.START_REPLICATION_EVENT, None)
                 self._replication_state = ReplicationState.STARTED
-            self._run_state = RunState.STARTED
             self.fire_timed(self._simulator_time,
                             Simulator.START_EVENT, None)
             self._step_impl()
         except Exception as e:
             print("Simulator step got exception: " + str(e))
         finally:
+            self._run_state = RunState.STOPPING
             self.fire_timed(self._simulator_time,
                             Simulator.STOP_EVENT, None)
             self._run_state = RunState.STOPPED
